@@ -370,3 +370,65 @@ func (in *Interp) findCipherPlan(s *SliceV) *cipherPlan {
 	}
 	return nil
 }
+
+// ---- crypto/x509.ParseCertificate: a deterministic function of the DER bytes ----
+
+func x509OK(c *smt.Term) *smt.Term {
+	return smt.UF("x509_ok", []string{"String"}, &smt.Term{K: smt.KBool}, c)
+}
+func x509Sec(which string, c *smt.Term) *smt.Term {
+	return smt.UF("x509_"+which+"_sec", []string{"String"}, &smt.Term{K: smt.KBV, W: 64}, c)
+}
+
+// x509Instant: certificate validity bounds have one-second resolution, 1970..2100
+func (in *Interp) x509Instant(which string, c *smt.Term) *smt.Term {
+	sec := x509Sec(which, c)
+	in.assumeOnce(smt.And(smt.BVSle(smt.BV(0, 64), sec), smt.BVSle(sec, smt.BV(4102444800, 64))))
+	return smt.BVMul(sec, smt.BV(1000000000, 64))
+}
+
+func init() {
+	models["crypto/x509.ParseCertificate"] = func(in *Interp, fn *ssa.Function, a []Value) Value {
+		content := in.stringOfBytes(a[0].(*SliceV))
+		in.event("x509.ParseCertificate")
+		in.Ghost["x509.parse.calls"] = intGhost(in, "x509.parse.calls") + 1
+		in.X.noteAssumption("crypto/x509.ParseCertificate: error or certificate as a deterministic function of the DER bytes; NotBefore/NotAfter whole seconds between 1970 and 2100")
+		pt := fn.Signature.Results().At(0).Type()
+		ct := derefType(pt)
+		if !in.Branch(x509OK(content)) {
+			return Tuple{nilPtr, in.opaqueError("x509")}
+		}
+		sv := zeroValue(ct).(*StructV)
+		f := make([]Value, len(sv.F))
+		copy(f, sv.F)
+		f[fieldIndex(ct, "NotBefore")] = &TimeV{Inst: in.x509Instant("nb", content), UTC: smt.True, Clock: "cert"}
+		f[fieldIndex(ct, "NotAfter")] = &TimeV{Inst: in.x509Instant("na", content), UTC: smt.True, Clock: "cert"}
+		f[fieldIndex(ct, "Raw")] = in.SymBytesOfStr(content)
+		o := in.newObject(ct, &StructV{F: f}, "x509 cert")
+		return Tuple{&Ptr{Obj: o}, nilError()}
+	}
+	// vCertBytes(name): DER bytes of a certificate-like blob (possibly empty / unparsable)
+	intrinsics["vCertBytes"] = func(in *Interp, fn *ssa.Function, a []Value) Value {
+		name := constStr(in, a[0], "vCertBytes name")
+		sl := intrinsics["vBytes"](in, nil, []Value{a[0]}).(*SliceV)
+		ir := in.inputIdx[name]
+		content := in.stringOfBytes(sl)
+		ir.Extra["x509_ok"] = x509OK(content)
+		ir.Extra["nb_sec"] = x509Sec("nb", content)
+		ir.Extra["na_sec"] = x509Sec("na", content)
+		in.Assume(smt.Implies(x509OK(content), smt.Not(smt.Eq(content, smt.StrLit("")))))
+		return sl
+	}
+	intrinsics["vX509OK"] = func(in *Interp, fn *ssa.Function, a []Value) Value {
+		return x509OK(in.stringOfBytes(a[0].(*SliceV)))
+	}
+	intrinsics["vX509NotBefore"] = func(in *Interp, fn *ssa.Function, a []Value) Value {
+		return in.x509Instant("nb", in.stringOfBytes(a[0].(*SliceV)))
+	}
+	intrinsics["vX509NotAfter"] = func(in *Interp, fn *ssa.Function, a []Value) Value {
+		return in.x509Instant("na", in.stringOfBytes(a[0].(*SliceV)))
+	}
+	intrinsics["vX509ParseCalls"] = func(in *Interp, fn *ssa.Function, a []Value) Value {
+		return smt.BV(uint64(intGhost(in, "x509.parse.calls")), 64)
+	}
+}
